@@ -31,5 +31,8 @@ def obligations(tier):
                               {"legacy": legacy, "len": n, "klo": k, "khi": k}, timeout=t, bounds=f"len(content) == {n}"))
         obs.append(Ob(f"L2.io_contract[{eng}]", "c03.py", "io_contract", {"legacy": legacy}, timeout=60))
     obs.append(Ob("L1.split_join_identity", "c03.py", "split_join_identity", {"len": ln}, timeout=t, bounds=f"len(content) <= {ln + 2}"))
+    # which matches are rewritten at all: a match overlapping an earlier one (also one that strictly contains it) is skipped,
+    # otherwise two replacements would cut the same line at stale offsets
+    obs.append(Ob("L3.has_overlap_spec", "c03.py", "has_overlap_spec", {}, timeout=t, bounds="spans in 0..20 on 3 lines"))
     obs.append(Ob("twin.some_rewrite", "c03.py", "twin_never_rewrites", {}, expect="refute", timeout=60))
     return obs
